@@ -2078,6 +2078,9 @@ static int32_t parse_XTA(ParserBuilder *aParserBuilder,
     syntax = newxta ? syntax_t::NEW_GUIDING : syntax_t::OLD_GUIDING;
     setStartToken(part, newxta);
 
+    // A previous parse may have been aborted by an exception inside a comment
+    BEGIN(INITIAL);
+
     // Set parser builder
     ch = aParserBuilder;
 
@@ -2101,6 +2104,9 @@ static int32_t parseProperty(ParserBuilder *aParserBuilder, const std::string& x
     // Select syntax
     syntax = syntax_t::PROPERTY;
     setStartToken(S_PROPERTY, false);
+
+    // A previous parse may have been aborted by an exception inside a comment
+    BEGIN(INITIAL);
 
     // Set parser builder
     ch = aParserBuilder;
